@@ -688,7 +688,13 @@ func (s *TxStore) Rollback(tx mwdb.DBTransaction, height uint64) error {
 		for i := len(rbBlock.transactions) - 1; i >= 0; i-- {
 			txHash := &rbBlock.transactions[i]
 
-			recKey, recVal := existsTxRecord(nsTxRecords, txHash, &rbBlock.BlockMeta)
+			// a read error must abort the rollback: treating it as "no record"
+			// would skip this transaction and commit a partial rollback
+			recKey := keyTxRecord(txHash, &rbBlock.BlockMeta)
+			recVal, err := nsTxRecords.Get(recKey)
+			if err != nil {
+				return err
+			}
 			blkLoc, txLoc, err := readTxRecordLoc(recVal)
 			if err != nil {
 				logging.CPrint(logging.WARN, "readTxRecordLoc failed",
